@@ -27,6 +27,7 @@ import (
 	"unicode/utf8"
 	"unsafe"
 
+	ethcmn "github.com/ethereum/go-ethereum/common"
 	abci "github.com/tendermint/tendermint/abci/types"
 	"github.com/tendermint/tendermint/crypto/ed25519"
 	tmlog "github.com/tendermint/tendermint/libs/log"
@@ -285,6 +286,20 @@ func (b *box) handle(cmd *proto.Cmd) (r proto.Resp) {
 		_ = rr
 		r = b.baseResp("check")
 		r.Calls = b.takeCalls()
+	case "evm":
+		// read balances and nonces the way the EVM does (state objects of a
+		// private copy of the adapter, so the live object cache is not touched)
+		r = b.baseResp("evm")
+		r.Evm = map[string][2]string{}
+		sdb := b.app.VerifStateDB().Copy()
+		for _, a := range cmd.Addrs {
+			raw, err := hex.DecodeString(a)
+			if err != nil || len(raw) != 20 {
+				continue
+			}
+			addr := ethcmn.BytesToAddress(raw)
+			r.Evm[a] = [2]string{sdb.GetBalance(addr).String(), fmt.Sprint(sdb.GetNonce(addr))}
+		}
 	case "dump":
 		r = b.baseResp("dump")
 		r.Dump, r.DumpFull = b.dump(cmd.Full)
